@@ -47,8 +47,115 @@ const valBase = 16 // spec: Val(b, a) = 16*b + a
 // a behaviour of a smaller configuration simply never touches the rest, which do not exist on disk.
 const nAddr = 8
 
+// Header fields that enter Header.Hash() besides ParentHash and Height.  One of them (the behaviour's `kind`)
+// carries the content difference of a block (a value unique to the block id); ALL the others are a function of
+// the block's slot alone (slot -> miner and time, the rest constant).  So two blocks of one slot under one
+// parent are twins: same height, parent hash, miner, time, roots, gas, ... - only the kind field (hence the
+// hash) differs.  The spec never looks at slot or kind: the identity of a block is its hash.
+var kinds = []string{"miner", "vroot", "txroot", "logroot", "gaslimit", "gasused", "time", "deputyroot", "extra"}
+
+func uniq(id int) *big.Int { return big.NewInt(int64(0x1d000000 + id)) }
+
+// mkHeader builds the header of block id (slot given by the spec) on parent pb.  vroot (account.Manager mode)
+// is the version root the real Manager computed; it is then part of the block's natural content.
+func (s *sys) mkHeader(pb *types.Block, id, slot int, vroot *common.Hash) *types.Header {
+	if slot < 1 {
+		engine.Failf("bad slot %d", slot)
+	}
+	h := &types.Header{ParentHash: pb.Hash(), Height: pb.Height() + 1,
+		MinerAddress: common.BigToAddress(big.NewInt(int64(0x51070000 + slot))), Time: uint32(1000 + 3*slot),
+		GasLimit: 105000000, GasUsed: 21000, DeputyRoot: []byte{0xd0}, Extra: "x"}
+	if vroot != nil {
+		h.VersionRoot = *vroot
+	}
+	switch s.kind {
+	case "miner":
+		h.MinerAddress = common.BigToAddress(uniq(id))
+	case "vroot":
+		if vroot != nil {
+			engine.Failf("kind vroot is not available when the version root is computed by account.Manager")
+		}
+		h.VersionRoot = common.BigToHash(uniq(id))
+	case "txroot":
+		h.TxRoot = common.BigToHash(uniq(id))
+	case "logroot":
+		h.LogRoot = common.BigToHash(uniq(id))
+	case "gaslimit":
+		h.GasLimit += uint64(id)
+	case "gasused":
+		h.GasUsed += uint64(id)
+	case "time":
+		h.Time = uint32(2000000 + id)
+	case "deputyroot":
+		h.DeputyRoot = uniq(id).Bytes()
+	case "extra":
+		h.Extra = fmt.Sprintf("b%d", id)
+	default:
+		engine.Failf("unknown kind %q", s.kind)
+	}
+	return h
+}
+
+// tmpl is a header with ParentHash, Height and the kind field blanked: what twins have in common.
+type tmpl struct {
+	miner                  common.Address
+	vroot, txroot, logroot common.Hash
+	gaslimit, gasused      uint64
+	time                   uint32
+	deputyroot, extra      string
+}
+
+func (s *sys) template(h *types.Header) tmpl {
+	t := tmpl{h.MinerAddress, h.VersionRoot, h.TxRoot, h.LogRoot, h.GasLimit, h.GasUsed, h.Time, string(h.DeputyRoot), h.Extra}
+	switch s.kind {
+	case "miner":
+		t.miner = common.Address{}
+	case "vroot":
+		t.vroot = common.Hash{}
+	case "txroot":
+		t.txroot = common.Hash{}
+	case "logroot":
+		t.logroot = common.Hash{}
+	case "gaslimit":
+		t.gaslimit = 0
+	case "gasused":
+		t.gasused = 0
+	case "time":
+		t.time = 0
+	case "deputyroot":
+		t.deputyroot = ""
+	case "extra":
+		t.extra = ""
+	}
+	if s.am { // the version root computed by the real Manager is content as well
+		t.vroot = common.Hash{}
+	}
+	return t
+}
+
+// register gives the new block its id (ids stand for hashes: two blocks with one hash would be a harness bug)
+// and reports which earlier blocks of this behaviour agree with it in everything but parent, height and the kind field.
+func (s *sys) register(b *types.Block) (id int, agree []int) {
+	if old, ok := s.ids[b.Hash()]; ok {
+		engine.Failf("harness: new block has the hash of block %d", old)
+	}
+	agree = []int{}
+	t := s.template(b.Header)
+	for i, o := range s.blocks {
+		if s.template(o.Header) == t {
+			agree = append(agree, i)
+		}
+	}
+	id = len(s.blocks)
+	s.blocks = append(s.blocks, b)
+	s.ids[b.Hash()] = id
+	return id, agree
+}
+
 type sys struct {
 	table  string
+	kind   string           // header field that carries the blocks' content difference in this behaviour
+	am     bool             // blocks are produced through account.Manager (VersionRoot is the Manager's)
 	addrs  []common.Address // index a-1
 	dir    string
 	db     *store.ChainDatabase
@@ -122,7 +229,8 @@ func variant(hex40 string, k int) string {
 //	      is replaced by an empty one - exactly what reopening does to it (NewGenesisBlock).  R is id 0.
 //
 // The Restart ACTION always really closes and reopens the database.
-func (s *sys) reset(sv []int) engine.Fields {
+func (s *sys) reset(sv []int, kind string) engine.Fields {
+	s.kind = kind
 	tab, ok := tables[s.table]
 	if !ok || len(tab) != nAddr || len(sv) > nAddr {
 		engine.Failf("address table %q has no %d addresses", s.table, len(sv))
@@ -182,7 +290,7 @@ func (s *sys) reset(sv []int) engine.Fields {
 		s.closeDB()
 		s.db = store.NewChainDataBase(s.dir)
 	}
-	fl := engine.Fields{"naddr": len(sv), "sv": sv, "addrs": hexes, "mode": mode, "err": ""}
+	fl := engine.Fields{"naddr": len(sv), "sv": sv, "addrs": hexes, "mode": mode, "kind": kind, "err": ""}
 	s.observe(fl)
 	return fl
 }
@@ -302,14 +410,12 @@ func (s *sys) block(id int) *types.Block {
 	return s.blocks[id]
 }
 
-func (s *sys) addBlock(p int) engine.Fields {
+func (s *sys) addBlock(p, slot int) engine.Fields {
 	pb := s.block(p)
-	id := len(s.blocks)
-	b := &types.Block{Header: &types.Header{ParentHash: pb.Hash(), Height: pb.Height() + 1, Time: uint32(id), Extra: fmt.Sprintf("b%d", id)}}
-	s.blocks = append(s.blocks, b)
-	s.ids[b.Hash()] = id
+	b := &types.Block{Header: s.mkHeader(pb, len(s.blocks), slot, nil)}
+	id, agree := s.register(b)
 	err := s.db.SetBlock(b.Hash(), b)
-	fl := engine.Fields{"id": id, "err": errStr(err)}
+	fl := engine.Fields{"id": id, "agree": agree, "err": errStr(err)}
 	s.observe(fl)
 	return fl
 }
@@ -378,7 +484,7 @@ func (s *sys) restart() engine.Fields {
 
 // do performs one spec action on the real system.  dirty stays set when the real code panics.
 func (s *sys) do(ev string, a []int) engine.Fields {
-	need := map[string]int{"AddBlock": 1, "Put": 2, "Get": 2, "SetStable": 1, "Restart": 0}
+	need := map[string]int{"AddBlock": 2, "Put": 2, "Get": 2, "SetStable": 1, "Restart": 0}
 	if n, ok := need[ev]; !ok || len(a) != n {
 		engine.Failf("bad action %s%v", ev, a)
 	}
@@ -386,7 +492,7 @@ func (s *sys) do(ev string, a []int) engine.Fields {
 	var fl engine.Fields
 	switch ev {
 	case "AddBlock":
-		fl = s.addBlock(a[0])
+		fl = s.addBlock(a[0], a[1])
 	case "Put":
 		fl = s.put(a[0], a[1])
 	case "Get":
@@ -408,7 +514,11 @@ func (a *adapter) Reset(init map[string]tla.Value) (engine.Fields, error) {
 	if !ok {
 		return nil, fmt.Errorf("initial state has no sv")
 	}
-	return a.s.reset(sv.Ints()), nil
+	kind, ok := init["kind"]
+	if !ok {
+		return nil, fmt.Errorf("initial state has no kind")
+	}
+	return a.s.reset(sv.Ints(), kind.S()), nil
 }
 
 func (a *adapter) Apply(st engine.Step) (engine.Fields, error) {
@@ -439,6 +549,7 @@ func driveRand(args []string) error {
 	table := fs.String("table", "wide", "")
 	hard := fs.Bool("hard", false, "new database directory and real reopen for every history")
 	pRestart := fs.Int("restart", 2, "percent of steps that really close and reopen the database")
+	nslots := fs.Int("slots", 2, "slots (miner, time) handed to new blocks: 1..slots; blocks of one slot under one parent are twins")
 	viaAM := fs.Bool("am", false, "produce every block through account.Manager (GetAccount via the parent's view, SetBalance, Finalise, SetBlock, Save)")
 	if err := fs.Parse(args); err != nil {
 		return err
@@ -452,7 +563,7 @@ func driveRand(args []string) error {
 	defer w.Flush()
 	enc := json.NewEncoder(w)
 	rng := rand.New(rand.NewSource(*seed))
-	s := &sys{table: *table, soft: !*hard}
+	s := &sys{table: *table, soft: !*hard, am: *viaAM}
 	defer func() {
 		s.closeDB()
 		s.rmDirs()
@@ -473,7 +584,11 @@ func driveRand(args []string) error {
 				sv[i] = i + 1
 			}
 		}
-		if err := emit("reset", h, 0, nil, s.reset(sv)); err != nil {
+		kind := kinds[rng.Intn(len(kinds))]
+		for *viaAM && kind == "vroot" { // the version root is the real Manager's there
+			kind = kinds[rng.Intn(len(kinds))]
+		}
+		if err := emit("reset", h, 0, nil, s.reset(sv, kind)); err != nil {
 			return err
 		}
 		parent := map[int]int{} // live blocks
@@ -506,7 +621,7 @@ func driveRand(args []string) error {
 				if len(l) > 0 && rng.Intn(4) > 0 {
 					p = l[rng.Intn(len(l))]
 				}
-				ev, a = "AddBlock", []int{p}
+				ev, a = "AddBlock", []int{p, 1 + rng.Intn(*nslots)}
 			case r < 52:
 				var cand [][2]int
 				for _, b := range l {
@@ -557,7 +672,7 @@ func driveRand(args []string) error {
 				for _, x := range perm[nwr : nwr+nrd] {
 					rset = append(rset, x+1)
 				}
-				evs, pmsg := s.amBlock(a[0], rset, wset, rng)
+				evs, pmsg := s.amBlock(a[0], a[1], rset, wset, rng)
 				for _, e := range evs {
 					if err := emit(e.ev, h, st, e.a, e.fl); err != nil {
 						return err
@@ -626,8 +741,8 @@ type amEvent struct {
 // an account.Manager based on the parent loads the accounts it touches THROUGH THE PARENT'S VIEW
 // (AccountTrieDB.Get, populating its cache), changes the balances of the write set, Finalise gives the version
 // root for the header, SetBlock, then Manager.Save(hash) puts the dirty accounts into the new block's view.
-// Events: Get(p, a) per loaded account, AddBlock(p), Save(b, writeSet).
-func (s *sys) amBlock(p int, rset, wset []int, rng *rand.Rand) (evs []amEvent, pmsg string) {
+// Events: Get(p, a) per loaded account, AddBlock(p, slot), Save(b, writeSet).
+func (s *sys) amBlock(p, slot int, rset, wset []int, rng *rand.Rand) (evs []amEvent, pmsg string) {
 	cur, curA := "Get", interface{}([]int{p, 0})
 	defer func() {
 		if r := recover(); r != nil {
@@ -668,18 +783,17 @@ func (s *sys) amBlock(p int, rset, wset []int, rng *rand.Rand) (evs []amEvent, p
 			acc.SetBalance(big.NewInt(int64(valBase*id + a)))
 		}
 	}
-	cur, curA = "AddBlock", []int{p}
+	cur, curA = "AddBlock", []int{p, slot}
 	if err := am.Finalise(); err != nil {
 		engine.Failf("Finalise: %v", err)
 	}
-	b := &types.Block{Header: &types.Header{ParentHash: pb.Hash(), Height: pb.Height() + 1, VersionRoot: am.GetVersionRoot(),
-		Time: uint32(id), Extra: fmt.Sprintf("b%d", id)}}
-	s.blocks = append(s.blocks, b)
-	s.ids[b.Hash()] = id
+	vroot := am.GetVersionRoot()
+	b := &types.Block{Header: s.mkHeader(pb, id, slot, &vroot)}
+	_, agree := s.register(b)
 	err := s.db.SetBlock(b.Hash(), b)
-	fl := engine.Fields{"id": id, "err": errStr(err)}
+	fl := engine.Fields{"id": id, "agree": agree, "err": errStr(err)}
 	s.observe(fl)
-	evs = append(evs, amEvent{"AddBlock", []int{p}, fl})
+	evs = append(evs, amEvent{"AddBlock", []int{p, slot}, fl})
 	sorted := append([]int{}, wset...)
 	sort.Ints(sorted)
 	cur, curA = "Save", []interface{}{id, sorted}
